@@ -1,9 +1,293 @@
-import Nv.Spec.C04
-/-! C04 — property theorems (milestone A placeholder: concrete runs; the full list follows). -/
+import Nv.Proofs.C04Sim
+import Nv.Proofs.C04Fit
+import Nv.Proofs.C04Wide
+/-!
+C04 — property theorems for the LRU caches (`cache.LRUCache` = `Kind.sized`, `cache/tiny.LRUCache` =
+`Kind.tiny`, wide variants = arrays of them). Model: `Nv.Model.C04` (implementation-shaped, stored
+counters), reference: `Nv.Spec.C04` (ideal LRU, recomputed sizes).
+Every theorem quantifies over all operation sequences, all keys/values, all item sizes ≥ 0 and
+capacities ≥ 0 (`Op.sizeOk`), both kinds, and every configuration `c` with `Proved kd c`.
+-/
 namespace Nv.C04
 
-theorem run_example :
-    (outs (step ⟨.gt, true, false, true, true⟩ .sized) (Lru.new 5) [.set 0 1 2, .set 2 2 7, .keys]) =
-      [.unit, .unit, .keys []] := by decide
+/-! ### refinement: every result equals the ideal LRU's -/
+
+/-- Every result of every operation (values, booleans, the removed list of `SetAndGetRemoved`,
+`Keys`/`Items` order, `Stats` = length/size/capacity/evictions) equals the ideal LRU's; in particular
+no operation panics. -/
+theorem lru_refines_ideal (kd : Kind) (c : Cfg) (hc : Proved kd c) (cap : Int) (hcap : 0 ≤ cap)
+    (ops : List Op) (hok : ∀ o ∈ ops, o.sizeOk = true) :
+    outs (step c kd) (Lru.new cap) ops = outs (specStep kd) (Ideal.new cap) ops :=
+  (sim_outs (step c kd) (specStep kd) (fun s t => Inv kd s ∧ abs s = t) (fun o => o.sizeOk = true)
+    (fun s t o hr ho => by
+      obtain ⟨hi, rfl⟩ := hr
+      have := step_sim hc s o hi ho
+      exact ⟨⟨this.1, this.2.1⟩, this.2.2⟩)
+    ops _ _ ⟨inv_new kd cap hcap, rfl⟩ hok).1
+
+/-- …and the states stay related: the recency list, capacity and eviction counter are the ideal's, and the
+invariant (below) holds after every sequence. -/
+theorem lru_state_is_ideal (kd : Kind) (c : Cfg) (hc : Proved kd c) (cap : Int) (hcap : 0 ≤ cap)
+    (ops : List Op) (hok : ∀ o ∈ ops, o.sizeOk = true) :
+    Inv kd (final (step c kd) (Lru.new cap) ops) ∧
+      abs (final (step c kd) (Lru.new cap) ops) = final (specStep kd) (Ideal.new cap) ops :=
+  (sim_outs (step c kd) (specStep kd) (fun s t => Inv kd s ∧ abs s = t) (fun o => o.sizeOk = true)
+    (fun s t o hr ho => by
+      obtain ⟨hi, rfl⟩ := hr
+      have := step_sim hc s o hi ho
+      exact ⟨⟨this.1, this.2.1⟩, this.2.2⟩)
+    ops _ _ ⟨inv_new kd cap hcap, rfl⟩ hok).2
+
+example : Proved .sized ⟨.gt, true, false, true, true⟩ ∧ Proved .tiny ⟨.gt, true, false, true, false⟩ ∧
+    Proved .tiny ⟨.gt, true, false, true, true⟩ := by decide
+
+/-- a concrete non-trivial run inside the hypotheses: eviction of the coldest, then an oversize item -/
+example : outs (step ⟨.gt, true, false, true, true⟩ .sized) (Lru.new 5)
+      [.set 0 1 2, .set 1 2 2, .get 0, .setGetRemoved 2 3 2, .keys, .set 3 4 9, .stats] =
+    [.unit, .unit, .val (some 1), .removed [2], .keys [2, 0], .unit, .stats 0 0 5 4] := by decide
+
+/-! ### invariants after every operation sequence -/
+
+/-- the summed item size never exceeds the capacity after an operation returns -/
+theorem lru_cap_bound (kd : Kind) (c : Cfg) (hc : Proved kd c) (cap : Int) (hcap : 0 ≤ cap)
+    (ops : List Op) (hok : ∀ o ∈ ops, o.sizeOk = true) :
+    let s := final (step c kd) (Lru.new cap) ops
+    s.size ≤ s.capacity ∧ total s.list ≤ s.capacity := by
+  have h := (lru_state_is_ideal kd c hc cap hcap ops hok).1
+  exact ⟨by rw [h.size_eq]; exact h.fits, h.fits⟩
+
+/-- the stored counter is the sum of the entries' sizes; for tiny it is the number of entries -/
+theorem lru_size_accounting (kd : Kind) (c : Cfg) (hc : Proved kd c) (cap : Int) (hcap : 0 ≤ cap)
+    (ops : List Op) (hok : ∀ o ∈ ops, o.sizeOk = true) :
+    let s := final (step c kd) (Lru.new cap) ops
+    s.size = total s.list ∧ (kd = .tiny → s.size = s.list.length) := by
+  have h := (lru_state_is_ideal kd c hc cap hcap ops hok).1
+  exact ⟨h.size_eq, fun hk => by rw [h.size_eq]; exact total_unit _ (h.unit hk)⟩
+
+/-- no key is listed twice -/
+theorem lru_nodup (kd : Kind) (c : Cfg) (hc : Proved kd c) (cap : Int) (hcap : 0 ≤ cap)
+    (ops : List Op) (hok : ∀ o ∈ ops, o.sizeOk = true) :
+    ((final (step c kd) (Lru.new cap) ops).list.map (·.key)).Nodup :=
+  (lru_state_is_ideal kd c hc cap hcap ops hok).1.nodup
+
+theorem specStep_no_panic (kd : Kind) (s : Ideal) (op : Op) : (specStep kd s op).2 ≠ .panic := by
+  cases op <;> simp [specStep] <;> split <;> simp
+
+/-- inside the quantifier no call panics (the nil `Back()` is never dereferenced) -/
+theorem lru_no_panic (kd : Kind) (c : Cfg) (hc : Proved kd c) (cap : Int) (hcap : 0 ≤ cap)
+    (ops : List Op) (hok : ∀ o ∈ ops, o.sizeOk = true) :
+    Out.panic ∉ outs (step c kd) (Lru.new cap) ops := by
+  rw [lru_refines_ideal kd c hc cap hcap ops hok]
+  clear hok
+  generalize Ideal.new cap = s
+  induction ops generalizing s with
+  | nil => simp
+  | cons o ops ih =>
+    simp only [outs_cons, List.mem_cons, not_or]
+    exact ⟨fun h => specStep_no_panic kd s o h.symm, ih _⟩
+
+/-! ### which entries are evicted -/
+
+/-- `checkCapacity` (the only place entries are evicted) keeps a prefix of the recency order and evicts the
+rest, reporting the evicted values coldest first: `kept ++ evicted.reverse = before`. -/
+theorem lru_evicts_coldest_suffix (kd : Kind) (c : Cfg) (hc : Proved kd c) (s : Lru) (hp : Pre kd s) :
+    ∃ evicted : List Entry,
+      (checkCapacity c kd s).1.list ++ evicted.reverse = s.list ∧
+      (checkCapacity c kd s).2.1 = evicted.map (·.val) ∧
+      (checkCapacity c kd s).1.evictions = s.evictions + evicted.length := by
+  have hs := checkCapacity_spec hc.1 hp
+  simp only [] at hs
+  refine ⟨(trimCold s.capacity s.list.reverse).2, ?_, by rw [hs], by rw [hs]⟩
+  rw [hs]
+  have := congrArg List.reverse (trimCold_split s.capacity s.list.reverse)
+  simpa using this
+
+/-- …and what is kept is exactly the longest prefix of the recency order that fits: entries are taken
+from the most recently used end while they cumulatively fit (`takeFit`). -/
+theorem lru_keeps_longest_fitting_prefix (kd : Kind) (c : Cfg) (hc : Proved kd c) (s : Lru) (hp : Pre kd s) :
+    (checkCapacity c kd s).1.list = takeFit s.capacity s.list := by
+  have hs := checkCapacity_spec hc.1 hp
+  simp only [] at hs
+  rw [hs]
+  have := trim_eq_takeFit s.capacity s.list.reverse (by simpa using hp.nonneg)
+  simpa using this
+
+/-- characterisation of `takeFit`: a prefix, within the capacity, and maximal (the first entry left out
+does not fit on top of the kept ones) -/
+theorem takeFit_characterisation (cap : Int) (hcap : 0 ≤ cap) (l : List Entry) :
+    (∃ t, takeFit cap l ++ t = l) ∧ total (takeFit cap l) ≤ cap ∧
+      ∀ x t, takeFit cap l ++ x :: t = l → total (takeFit cap l) + x.size > cap :=
+  ⟨takeFit_prefix cap l, takeFit_fits cap hcap l, takeFit_maximal cap l⟩
+
+/-- the ideal LRU's `insert` in the most-recent-first reading -/
+theorem ideal_insert_takeFit (kd : Kind) (s : Ideal) (k v : Nat) (sz : Int) (hsz : 0 ≤ sz)
+    (hnn : ∀ e ∈ s.entries, 0 ≤ e.size) :
+    (s.insert kd k v sz).1.entries = takeFit s.capacity (⟨k, v, szOf kd sz⟩ :: removeKey k s.entries) := by
+  have := trim_eq_takeFit s.capacity (⟨k, v, szOf kd sz⟩ :: removeKey k s.entries).reverse (by
+    intro e he
+    simp at he
+    rcases he with he | rfl
+    · exact hnn e (mem_removeKey he)
+    · exact szOf_nonneg kd sz hsz)
+  simpa [Ideal.insert, Ideal.fit] using this
+
+/-! ### recency -/
+
+/-- `Get` of a present key moves it to the front and returns its value; nothing else changes -/
+theorem lru_get_refreshes (kd : Kind) (c : Cfg) (hc : Proved kd c) (s : Lru) (k : Nat) (e : Entry)
+    (hf : find? k s.list = some e) :
+    step c kd s (.get k) = ({ s with list := e :: removeKey k s.list }, .val (some e.val)) := by
+  have hk := (find_some hf).2
+  simp [step, hf, hc.2.1, moveToFront, hk]
+
+/-- `SetIfAbsent` of a present key moves it to the front, keeps its value -/
+theorem lru_setIfAbsent_refreshes (kd : Kind) (c : Cfg) (hc : Proved kd c) (s : Lru) (k v : Nat) (sz : Int) (e : Entry)
+    (hf : find? k s.list = some e) :
+    step c kd s (.setIfAbsent k v sz) = ({ s with list := e :: removeKey k s.list }, .unit) := by
+  have hk := (find_some hf).2
+  simp [step, hf, hc.2.2.2.1, moveToFront, hk]
+
+/-- `Set` puts the key at the front (when anything survives, the new entry is first) -/
+theorem lru_set_front (kd : Kind) (c : Cfg) (hc : Proved kd c) (s : Lru) (hi : Inv kd s) (k v : Nat) (sz : Int)
+    (hsz : 0 ≤ sz) :
+    (step c kd s (.set k v sz)).1.list = takeFit s.capacity (⟨k, v, szOf kd sz⟩ :: removeKey k s.list) := by
+  have h := (step_sim hc s (.set k v sz) hi (by simpa [Op.sizeOk] using hsz)).2.1
+  have h2 := ideal_insert_takeFit kd (abs s) k v sz hsz hi.nonneg
+  have : (step c kd s (.set k v sz)).1.list = (abs (step c kd s (.set k v sz)).1).entries := rfl
+  rw [this, h]; exact h2
+
+/-- `Peek`, `Exist`, `Keys`, `Items`, `Stats` change nothing -/
+theorem lru_peek_exist_pure (kd : Kind) (c : Cfg) (hc : Proved kd c) (s : Lru) (k : Nat) :
+    (step c kd s (.peek k)).1 = s ∧ (step c kd s (.exist k)).1 = s ∧ (step c kd s .keys).1 = s ∧
+      (step c kd s .items).1 = s ∧ (step c kd s .stats).1 = s := by
+  refine ⟨?_, rfl, rfl, rfl, rfl⟩
+  simp only [step]
+  split <;> simp [hc.2.2.1]
+
+/-- an item larger than the whole capacity empties the cache, itself included -/
+theorem lru_oversize_item (c : Cfg) (hc : Proved .sized c) (s : Lru) (hi : Inv .sized s) (k v : Nat) (sz : Int)
+    (hsz : s.capacity < sz) : (step c .sized s (.set k v sz)).1.list = [] := by
+  rw [lru_set_front .sized c hc s hi k v sz (by have := hi.cap_nonneg; omega)]
+  have : ¬ sz ≤ s.capacity := by omega
+  simp [takeFit, szOf, this]
+
+/-! ### wide variants: the product of per-shard caches -/
+
+/-- A wide cache with any total routing function into `[0, n)` never indexes outside its shard slice, and
+every shard ends in exactly the state — and gives exactly the answers — of a single cache (same kind,
+capacity `capacity/shards + 1`) run on the sub-script of the operations routed to it. -/
+theorem wlru_per_shard (c : Cfg) (kd : Kind) (idx : Nat → Nat) (n : Nat) (hidx : ∀ k, idx k < n) (cap : Int)
+    (ops : List Op) (hkeyed : ∀ o ∈ ops, o.key?.isSome = true) :
+    ∃ w os, wideRun c kd idx (Wide.new cap n) ops = some (w, os) ∧ w.shards.length = n ∧
+      ∀ i, i < n →
+        w.shards[i]? = some (final (step c kd) (Lru.new (shardCap cap n)) (shardOps idx i ops)) ∧
+        ((ops.zip os).filter (fun p => routed idx i p.1)).map (·.2) =
+          outs (step c kd) (Lru.new (shardCap cap n)) (shardOps idx i ops) := by
+  obtain ⟨w, os, h1, h2, h3⟩ := wide_run_per_shard c kd idx n hidx ops hkeyed (Wide.new cap n) (by simp [Wide.new])
+  exact ⟨w, os, h1, h2, fun i hi => h3 i _ (by simp [Wide.new, hi])⟩
+
+theorem shardCap_nonneg (cap : Int) (n : Nat) (h : 0 ≤ cap) : 0 ≤ shardCap cap n := by
+  have : 0 ≤ cap.tdiv n := Int.tdiv_nonneg h (Int.natCast_nonneg n)
+  simp only [shardCap]; omega
+
+/-- consequently every shard of a wide cache answers as the ideal LRU of capacity `capacity/shards + 1`
+on its sub-script, and keeps the invariant (bound, accounting, no duplicates) -/
+theorem wlru_shard_refines_ideal (kd : Kind) (c : Cfg) (hc : Proved kd c) (idx : Nat → Nat) (n : Nat)
+    (hidx : ∀ k, idx k < n) (cap : Int) (hcap : 0 ≤ cap) (ops : List Op)
+    (hkeyed : ∀ o ∈ ops, o.key?.isSome = true) (hok : ∀ o ∈ ops, o.sizeOk = true) :
+    ∃ w os, wideRun c kd idx (Wide.new cap n) ops = some (w, os) ∧
+      ∀ i, i < n →
+        ((ops.zip os).filter (fun p => routed idx i p.1)).map (·.2) =
+          outs (specStep kd) (Ideal.new (shardCap cap n)) (shardOps idx i ops) ∧
+        ∃ s, w.shards[i]? = some s ∧ Inv kd s := by
+  obtain ⟨w, os, h1, -, h3⟩ := wlru_per_shard c kd idx n hidx cap ops hkeyed
+  refine ⟨w, os, h1, fun i hi => ?_⟩
+  have hsub : ∀ o ∈ shardOps idx i ops, o.sizeOk = true := fun o ho => hok o (List.mem_filter.1 ho).1
+  have hcap' := shardCap_nonneg cap n hcap
+  obtain ⟨ha, hb⟩ := h3 i hi
+  exact ⟨by rw [hb]; exact lru_refines_ideal kd c hc _ hcap' _ hsub,
+    _, ha, (lru_state_is_ideal kd c hc _ hcap' _ hsub).1⟩
+
+example : (wideRun ⟨.gt, true, false, true, true⟩ .sized (· % 2) (Wide.new 4 2)
+    [.set 0 1 1, .set 2 2 1, .set 4 3 1, .set 6 4 1, .set 1 5 3, .get 0]).map (·.2) =
+    some [.unit, .unit, .unit, .unit, .unit, .val none] := by decide
+
+/-- 64-bit arithmetic of `capacity/int64(numbs) + 1`: MaxInt64 on a single shard wraps to MinInt64 -/
+theorem witness_shard_capacity_overflow :
+    (BitVec.sdiv (BitVec.ofInt 64 (2 ^ 63 - 1)) 1#64 + 1#64).toInt = -(2 ^ 63) := by decide
+
+/-! ### concurrent callers
+
+Every public method holds the cache's mutex for its whole body (regenerated fact `allMethodsLocked`,
+`sync.Mutex` trusted), so a concurrent execution is some interleaving of the callers' operation lists
+executed atomically. Whatever the interleaving, it is one operation sequence — and the theorems above
+hold for all of them. -/
+
+/-- `m` is an interleaving of the per-caller programs `ps` -/
+inductive Interleaving : List (List Op) → List Op → Prop
+  | done {ps} : (∀ p ∈ ps, p = []) → Interleaving ps []
+  | step {ps : List (List Op)} {i : Nat} {o : Op} {rest : List Op} {m : List Op} :
+      ps[i]? = some (o :: rest) → Interleaving (ps.set i rest) m → Interleaving ps (o :: m)
+
+theorem interleaving_mem {ps : List (List Op)} {m : List Op} (h : Interleaving ps m) :
+    ∀ o ∈ m, ∃ p ∈ ps, o ∈ p := by
+  induction h with
+  | done _ => simp
+  | @step ps i o rest m hget _ ih =>
+    intro x hx
+    simp at hx
+    rcases hx with rfl | hx
+    · exact ⟨_, List.mem_of_getElem? hget, by simp⟩
+    · obtain ⟨p, hp, hxp⟩ := ih x hx
+      rcases List.mem_or_eq_of_mem_set hp with hp | rfl
+      · exact ⟨p, hp, hxp⟩
+      · exact ⟨_, List.mem_of_getElem? hget, by simp [hxp]⟩
+
+/-- for every schedule of concurrent callers the results are those of the ideal LRU on the same
+linearisation, and the capacity bound and size accounting hold at the end -/
+theorem lru_concurrent_callers (kd : Kind) (c : Cfg) (hc : Proved kd c) (cap : Int) (hcap : 0 ≤ cap)
+    (ps : List (List Op)) (hok : ∀ p ∈ ps, ∀ o ∈ p, o.sizeOk = true) (m : List Op) (hm : Interleaving ps m) :
+    outs (step c kd) (Lru.new cap) m = outs (specStep kd) (Ideal.new cap) m ∧
+      Inv kd (final (step c kd) (Lru.new cap) m) := by
+  have hall : ∀ o ∈ m, o.sizeOk = true := by
+    intro o ho
+    obtain ⟨p, hp, hop⟩ := interleaving_mem hm o ho
+    exact hok p hp o hop
+  exact ⟨lru_refines_ideal kd c hc cap hcap m hall, (lru_state_is_ideal kd c hc cap hcap m hall).1⟩
+
+/-! ### what the hypotheses exclude, and what the unproved configurations do -/
+
+/-- sizes < 0 are outside the property: the bound fails (Delete does not re-check the capacity) -/
+theorem witness_negative_size_breaks_bound :
+    let s := final (step ⟨.gt, true, false, true, true⟩ .sized) (Lru.new 1) [.set 0 1 (-5), .set 1 2 6, .delete 0]
+    s.size = 6 ∧ s.capacity = 1 := by decide
+
+/-- a negative capacity makes the first `Set` dereference the nil `Back()` -/
+theorem witness_negative_capacity_panics :
+    outs (step ⟨.gt, true, false, true, true⟩ .sized) (Lru.new (-1)) [.set 0 1 1] = [.panic] := by decide
+
+/-- guard `>=` instead of `>`: evicts at exact fit — not the ideal LRU -/
+theorem witness_ge_guard :
+    outs (step ⟨.ge, true, false, true, true⟩ .sized) (Lru.new 2) [.set 0 1 1, .set 1 2 1, .keys] ≠
+      outs (specStep .sized) (Ideal.new 2) [.set 0 1 1, .set 1 2 1, .keys] := by decide
+
+/-- `Peek` that refreshes recency: a later eviction takes the wrong entry -/
+theorem witness_peek_moves :
+    outs (step ⟨.gt, true, true, true, true⟩ .sized) (Lru.new 2) [.set 0 1 1, .set 1 2 1, .peek 0, .set 2 3 1, .keys] ≠
+      outs (specStep .sized) (Ideal.new 2) [.set 0 1 1, .set 1 2 1, .peek 0, .set 2 3 1, .keys] := by decide
+
+/-- `Get` / `SetIfAbsent` that do not refresh -/
+theorem witness_get_does_not_move :
+    outs (step ⟨.gt, false, false, true, true⟩ .tiny) (Lru.new 2) [.set 0 1 1, .set 1 2 1, .get 0, .set 2 3 1, .keys] ≠
+      outs (specStep .tiny) (Ideal.new 2) [.set 0 1 1, .set 1 2 1, .get 0, .set 2 3 1, .keys] := by decide
+
+theorem witness_setIfAbsent_does_not_move :
+    outs (step ⟨.gt, true, false, false, true⟩ .sized) (Lru.new 2) [.set 0 1 1, .set 1 2 1, .setIfAbsent 0 9 1, .set 2 3 1, .keys] ≠
+      outs (specStep .sized) (Ideal.new 2) [.set 0 1 1, .set 1 2 1, .setIfAbsent 0 9 1, .set 2 3 1, .keys] := by decide
+
+/-- sized update without the capacity check: in-place growth exceeds the capacity -/
+theorem witness_update_without_check :
+    let s := final (step ⟨.gt, true, false, true, false⟩ .sized) (Lru.new 3) [.set 0 1 1, .set 0 2 7]
+    s.size = 7 ∧ s.capacity = 3 := by decide
 
 end Nv.C04
